@@ -6,6 +6,7 @@ import common
 
 PROPS = "RotoV.Props.C08"              # T1 order_spec, T2 lowerS_trace_partial, T3 dce_preserves_trace
 PROPS_SOURCE = "RotoV.Props.C08Source"  # regenerated step skeletons of the Lowerer functions, pinned
+PROPS_LIR = "RotoV.Props.C08Lir"        # one stage down: the MIR -> LIR block lowering keeps the order of calls (generated tables `mirlower`)
 EXTRA = ["RotoV.Model.TraceSpec", "RotoV.Lemmas.TraceSpec", "RotoV.Lemmas.TraceSpecMono", "RotoV.Model.LowerS", "RotoV.Lemmas.LowerS", "RotoV.Lemmas.LowerSim", "RotoV.Lemmas.LowerTotal",
          "RotoV.Lemmas.Dce", "RotoV.Model.Dce", "RotoV.Props.C01Dce"]
 
@@ -26,10 +27,10 @@ def search(ctx):
 def run(ctx):
     for f in glob.glob(os.path.join(common.VERIF, "evidence", "replays", "C08-*.json")):
         os.remove(f)
-    ctx.extract(["dce", "c08order"])
+    ctx.extract(["dce", "c08order", "mirlower"])
     extra = [m for m in EXTRA if os.path.exists(os.path.join(common.LEAN, *m.split(".")) + ".lean")]
     theorems, examples, axioms = [], 0, {}
-    for module, more in ((PROPS, extra), (PROPS_SOURCE, [])):
+    for module, more in ((PROPS, extra), (PROPS_SOURCE, []), (PROPS_LIR, ["RotoV.Model.MirLower"])):
         ctx.prove(module, extra_modules=more)
         theorems += ctx.coverage.get("theorems", [])
         examples += ctx.coverage.get("nonvacuity_examples", 0)
